@@ -997,23 +997,25 @@ def run(tier):
     def search():
         return fails[0] if fails else None
 
-    if fails:
-        seen = set()
-        for key, detail, what in fails:
-            kk = (key.get("kind"), key.get("test"), key.get("why"))
-            if kk in seen and len(seen) > 6:
-                continue
-            seen.add(kk)
-            res.violation(key, detail, what)
-            if len(seen) > 12:
-                break
-    elif not b["ok"]:
-        vlib.report_broken_build(res, b, search)
-    elif diffs or not okx:
-        what, case, impl, model = diffs[0] if diffs else ("extraction", {}, None, None)
-        res.violation({"correspondence": what}, {"case": case, "impl": impl, "model": model, "n_differences": len(diffs),
-                                                   "extraction_ok": okx, "log": xlog[-600:] if not okx else ""},
-                      "correspondence of the Coq model with %s no longer holds (%d differing cases)" % (what, len(diffs)), no_input=True)
-    elif programs == 0:
-        res.violation({"machinery": "no program validated"}, {"status": dict(cstat)}, "no compiled stream could be validated", no_input=True)
+    reported = False          # a violation that is not a recorded known finding
+    seen = set()
+    for key, detail, what in fails:
+        kk = (key.get("kind"), key.get("test"), key.get("why"), key.get("defect"))
+        if kk in seen and len(seen) > 6:
+            continue
+        seen.add(kk)
+        reported |= bool(res.violation(key, detail, what))
+        if len(seen) > 12:
+            break
+    if not reported:
+        if not b["ok"]:
+            vlib.report_broken_build(res, b, None)
+        elif diffs or not okx:
+            what, case, impl, model = diffs[0] if diffs else ("extraction", {}, None, None)
+            res.violation({"correspondence": what}, {"case": case, "impl": impl, "model": model, "n_differences": len(diffs),
+                                                       "differing_functions": sorted(set(d[0] for d in diffs)),
+                                                       "extraction_ok": okx, "log": xlog[-600:] if not okx else ""},
+                          "correspondence of the Coq model with %s no longer holds (%d differing cases)" % (what, len(diffs)), no_input=True)
+        elif programs == 0:
+            res.violation({"machinery": "no program validated"}, {"status": dict(cstat)}, "no compiled stream could be validated", no_input=True)
     return res.finish()
